@@ -538,7 +538,7 @@ def run_history(case, ctx):
 # -- generation -----------------------------------------------------------------------------------
 
 def budget(tier):
-	return {'quick': 12000, 'thorough': 250000}[tier]
+	return {'quick': 30000, 'thorough': 250000}[tier]
 
 
 def expr_strategy(nmax_hint=12):
